@@ -44,6 +44,7 @@ type Obligation struct {
 	Output  string
 	Cover   string // sat | unsat | unknown | ""
 	Second  string
+	Watch   []watchTerm
 	SMTFile string
 }
 
@@ -61,6 +62,12 @@ type VC struct {
 	abstracted []string
 	assumed    map[string]bool
 	regionEval func(src string) (string, error)
+	watch      []watchTerm
+}
+
+type watchTerm struct {
+	Label string
+	Term  string
 }
 
 func NewVC(fn string) *VC {
@@ -231,98 +238,261 @@ func IntLit(n string) string {
 
 var symRe = regexp.MustCompile(`[A-Za-z_$][A-Za-z0-9_.$!]*`)
 
-func (o *Obligation) smt(neg bool, relevantOnly bool) string {
+func (o *Obligation) smt(neg bool, relevantOnly bool) string { return o.smtMode(neg, ModeAll, false) }
+
+func (o *Obligation) smtOpt(neg bool, relevantOnly bool, dropQuant bool) string {
+	if dropQuant {
+		return o.smtMode(neg, ModeNoQuant, false)
+	}
+	return o.smtMode(neg, ModeAll, false)
+}
+
+func (o *Obligation) smtFull(neg bool, relevantOnly bool, dropQuant bool, withWatch bool) string {
+	if dropQuant {
+		return o.smtMode(neg, ModeNoQuant, withWatch)
+	}
+	return o.smtMode(neg, ModeAll, withWatch)
+}
+
+const (
+	ModeAll      = 0 // every hypothesis
+	ModeNoQuant  = 1 // quantified hypotheses dropped (weaker: unsat is a proof, sat a candidate)
+	ModeRelevant = 2 // quantified hypotheses kept only if related to the goal (weaker: unsat is a proof)
+)
+
+func isQuant(s string) bool { return strings.Contains(s, "(forall ") || strings.Contains(s, "(exists ") }
+
+func flattenAnd(p string, out *[]string) {
+	if strings.HasPrefix(p, "(and ") {
+		for _, q := range splitSexprs(p[5 : len(p)-1]) {
+			flattenAnd(q, out)
+		}
+		return
+	}
+	if p != "true" {
+		*out = append(*out, p)
+	}
+}
+
+// smtMode emits the query. Hypotheses = background facts + path condition + extras; cover queries
+// (neg=false) never include quantified background facts.
+func (o *Obligation) smtMode(neg bool, mode int, withWatch bool) string {
 	vc := o.vc
 	var b bytes.Buffer
 	b.WriteString("; obligation " + o.Name + " (" + o.Kind + ") at " + o.Pos + "\n")
 	if o.Clause != "" {
 		b.WriteString("; clause: " + strings.ReplaceAll(o.Clause, "\n", " ") + "\n")
 	}
-	facts := vc.facts[:o.NFacts]
-	// relevance: symbols used
-	used := map[string]bool{}
-	addSyms := func(s string) {
-		for _, m := range symRe.FindAllString(s, -1) {
-			used[m] = true
+	var hyps []string
+	for _, f := range vc.facts[:o.NFacts] {
+		if !neg && isQuant(f) {
+			continue
 		}
+		hyps = append(hyps, f)
 	}
+	nFacts := len(hyps)
 	for _, p := range o.PC {
-		addSyms(p)
+		flattenAnd(p, &hyps)
 	}
 	for _, p := range o.Extra {
-		addSyms(p)
+		flattenAnd(p, &hyps)
 	}
-	addSyms(o.Goal)
-	incl := make([]bool, len(facts))
-	if relevantOnly {
-		factSyms := make([][]string, len(facts))
-		for i, f := range facts {
-			seen := map[string]bool{}
-			for _, m := range symRe.FindAllString(f, -1) {
-				if _, isDecl := vc.declSet[m]; isDecl && !seen[m] {
-					seen[m] = true
-					factSyms[i] = append(factSyms[i], m)
-				}
+	symsOf := func(s string) []string {
+		var out []string
+		seen := map[string]bool{}
+		for _, m := range symRe.FindAllString(s, -1) {
+			if _, isDecl := vc.declSet[m]; isDecl && !seen[m] {
+				seen[m] = true
+				out = append(out, m)
 			}
 		}
-		changed := true
-		for changed {
-			changed = false
-			for i := range facts {
-				if incl[i] {
+		return out
+	}
+	hsyms := make([][]string, len(hyps))
+	freq := map[string]int{}
+	for i, h := range hyps {
+		hsyms[i] = symsOf(h)
+		for _, s := range hsyms[i] {
+			freq[s]++
+		}
+	}
+	goalSyms := symsOf(o.Goal)
+	incl := make([]bool, len(hyps))
+	switch mode {
+	case ModeAll:
+		for i := range incl {
+			incl[i] = true
+		}
+	case ModeNoQuant:
+		for i, h := range hyps {
+			incl[i] = !isQuant(h)
+		}
+	case ModeRelevant:
+		// a quantified hypothesis is kept if the array "families" it talks about (heap field /
+		// ghost / local array names without version numbers) meet those of the goal, directly or
+		// through one other kept quantified hypothesis. Ground hypotheses are all kept.
+		fams := func(syms []string) []string {
+			var out []string
+			for _, s := range syms {
+				if f := family(s); f != "" {
+					out = append(out, f)
+				}
+			}
+			return out
+		}
+		rel := map[string]bool{}
+		for _, f := range fams(goalSyms) {
+			rel[f] = true
+		}
+		hfam := make([][]string, len(hyps))
+		for i, h := range hyps {
+			if isQuant(h) {
+				hfam[i] = fams(hsyms[i])
+			}
+		}
+		for round := 0; round < 2; round++ {
+			for i, h := range hyps {
+				if !isQuant(h) || incl[i] {
 					continue
 				}
-				hit := false
-				for _, s := range factSyms[i] {
-					if used[s] {
-						hit = true
+				for _, f := range hfam[i] {
+					if rel[f] {
+						incl[i] = true
 						break
 					}
 				}
-				if hit {
-					incl[i] = true
-					changed = true
-					for _, s := range factSyms[i] {
-						used[s] = true
+			}
+			for i := range hyps {
+				if incl[i] && len(hfam[i]) <= 6 {
+					for _, f := range hfam[i] {
+						rel[f] = true
 					}
 				}
 			}
 		}
-	} else {
-		for i, f := range facts {
-			incl[i] = true
-			addSyms(f)
+		for i, h := range hyps {
+			if !isQuant(h) {
+				incl[i] = true
+			}
+		}
+	}
+	// background facts: ground ones only when they share a symbol with the rest (transitively)
+	used := map[string]bool{}
+	for _, s := range goalSyms {
+		used[s] = true
+	}
+	for i := nFacts; i < len(hyps); i++ {
+		if incl[i] {
+			for _, s := range hsyms[i] {
+				used[s] = true
+			}
+		}
+	}
+	watch := o.Watch
+	if watch == nil {
+		watch = vc.watch
+	}
+	if withWatch {
+		for _, w := range watch {
+			for _, s := range symsOf(w.Term) {
+				used[s] = true
+			}
+		}
+	}
+	factIn := make([]bool, nFacts)
+	for changed := true; changed; {
+		changed = false
+		for i := 0; i < nFacts; i++ {
+			if factIn[i] || !incl[i] {
+				continue
+			}
+			hit := false
+			for _, s := range hsyms[i] {
+				if used[s] {
+					hit = true
+					break
+				}
+			}
+			if hit {
+				factIn[i] = true
+				changed = true
+				for _, s := range hsyms[i] {
+					used[s] = true
+				}
+			}
 		}
 	}
 	for _, d := range vc.decls {
-		// (declare-fun sym ...
 		rest := d[len("(declare-fun "):]
 		sym := rest[:strings.IndexByte(rest, ' ')]
 		if used[sym] {
 			b.WriteString(d + "\n")
 		}
 	}
-	for i, f := range facts {
-		if incl[i] {
-			if !neg && strings.Contains(f, "(forall ") {
-				continue // cover queries: quantified background axioms are dropped (model finding)
+	for i, h := range hyps {
+		if i < nFacts {
+			if factIn[i] {
+				b.WriteString("(assert " + h + ")\n")
 			}
-			b.WriteString("(assert " + f + ")\n")
+		} else if incl[i] {
+			b.WriteString("(assert " + h + ")\n")
 		}
-	}
-	for _, p := range o.PC {
-		if p != "true" {
-			b.WriteString("(assert " + p + ")\n")
-		}
-	}
-	for _, p := range o.Extra {
-		b.WriteString("(assert " + p + ")\n")
 	}
 	if neg {
 		b.WriteString("(assert (not " + o.Goal + "))\n")
 	}
 	b.WriteString("(check-sat)\n")
+	if withWatch && len(watch) > 0 {
+		b.WriteString("(get-value (")
+		for _, w := range watch {
+			b.WriteString(w.Term + " ")
+		}
+		b.WriteString("))\n")
+	}
 	return b.String()
+}
+
+// Witness asks the solver for the values of the watched pre/post-state terms in a model of the
+// failing obligation (relaxed query if the full one gave no model).
+func (o *Obligation) Witness(dir string, relaxed bool) map[string]string {
+	watch := o.Watch
+	if watch == nil {
+		watch = o.vc.watch
+	}
+	if len(watch) == 0 {
+		return nil
+	}
+	q := "(set-option :produce-models true)\n(set-logic ALL)\n" + o.smtFull(true, true, relaxed, true)
+	file := filepath.Join(dir, fmt.Sprintf("witness-%s.smt2", sanitize(o.Name)))
+	os.WriteFile(file, []byte(q), 0o644)
+	out, _ := exec.Command("z3-new", "-T:20", "-smt2", file).CombinedOutput()
+	txt := string(out)
+	if !strings.HasPrefix(strings.TrimSpace(txt), "sat") {
+		return nil
+	}
+	// parse ((term value) (term value) ...)
+	i := strings.Index(txt, "((")
+	if i < 0 {
+		return nil
+	}
+	items := splitSexprs(strings.TrimSpace(txt[i:])[1:])
+	w := map[string]string{}
+	for k, it := range items {
+		if k >= len(watch) {
+			break
+		}
+		it = strings.TrimSpace(it)
+		if !strings.HasPrefix(it, "(") {
+			continue
+		}
+		parts := splitSexprs(it[1 : len(it)-1])
+		if len(parts) >= 2 {
+			v := parts[len(parts)-1]
+			v = strings.ReplaceAll(strings.ReplaceAll(v, "(- ", "-"), ")", "")
+			w[watch[k].Label] = v
+		}
+	}
+	return w
 }
 
 // ---- solver racing ----
@@ -466,20 +636,63 @@ func Discharge(obls []*Obligation, dir string, timeoutS int, par int, covers boo
 			if o.Goal == "true" {
 				o.Status, o.Solver = "proved", "trivial"
 			} else {
-				q := o.smt(true, true)
-				if len(q) > 400000 {
+				q := o.smtMode(true, ModeAll, false)
+				qr := o.smtMode(true, ModeNoQuant, false)
+				qm := o.smtMode(true, ModeRelevant, false)
+				hasQuant := q != qr
+				if len(q) > 800000 {
 					o.Status, o.Output = "unknown", fmt.Sprintf("VC too large (%d bytes)", len(q))
 				} else {
-					r := solve(q, dir, o.Name, timeoutS, true)
-					o.Solver, o.Time, o.Output = r.solver, r.secs, r.out
-					switch r.status {
-					case "unsat":
+					// 1. quantifier-free hypotheses only: a proof here is a proof; a model is a candidate
+					r1 := solve(qr, dir, o.Name+"-qf", min(timeoutS, 5), true)
+					o.Solver, o.Time, o.Output = r1.solver, r1.secs, r1.out
+					total := r1.secs
+					finish := func(r solveResult) bool {
+						total += r.secs
+						o.Solver, o.Time, o.Output = r.solver, total, r.out
+						switch r.status {
+						case "unsat":
+							o.Status = "proved"
+							return true
+						case "sat":
+							if !hasQuant {
+								o.Status = "failed"
+								o.Model = r.out
+								return true
+							}
+						}
+						return false
+					}
+					switch {
+					case r1.status == "unsat":
 						o.Status = "proved"
-					case "sat":
+					case r1.status == "sat" && !hasQuant:
 						o.Status = "failed"
-						o.Model = r.out
+						o.Model = r1.out
 					default:
-						o.Status = "unknown"
+						// 2. quantified hypotheses related to the goal; 3. everything
+						done := false
+						if qm != q {
+							done = finish(solve(qm, dir, o.Name+"-rel", timeoutS, true))
+						}
+						if !done {
+							r := solve(q, dir, o.Name, timeoutS, true)
+							total += r.secs
+							o.Solver, o.Time, o.Output = r.solver, total, r.out
+							switch r.status {
+							case "unsat":
+								o.Status = "proved"
+							case "sat":
+								o.Status = "failed"
+								o.Model = r.out
+							default:
+								o.Status = "unknown"
+								if r1.status == "sat" {
+									o.Model = r1.out
+									o.Output = "CANDIDATE-MODEL (quantified hypotheses dropped)\n" + r1.out
+								}
+							}
+						}
 					}
 				}
 			}
@@ -500,4 +713,73 @@ func sortedKeys[V any](m map[string]V) []string {
 	}
 	sort.Strings(ks)
 	return ks
+}
+
+// dropQuantConjuncts replaces quantified top-level conjuncts of a hypothesis by true. Only
+// conjunctions are descended into (dropping a conjunct weakens the hypothesis); anything else
+// containing a quantifier is dropped as a whole.
+func dropQuantConjuncts(p string) string {
+	if !strings.Contains(p, "(forall ") && !strings.Contains(p, "(exists ") {
+		return p
+	}
+	if strings.HasPrefix(p, "(and ") {
+		parts := splitSexprs(p[5 : len(p)-1])
+		var keep []string
+		for _, q := range parts {
+			keep = append(keep, dropQuantConjuncts(q))
+		}
+		return And(keep...)
+	}
+	return "true"
+}
+
+func splitSexprs(s string) []string {
+	var out []string
+	d, start := 0, -1
+	for i := 0; i < len(s); i++ {
+		c := s[i]
+		switch {
+		case c == '(':
+			if d == 0 && start < 0 {
+				start = i
+			}
+			d++
+		case c == ')':
+			d--
+			if d == 0 && start >= 0 {
+				out = append(out, s[start:i+1])
+				start = -1
+			}
+		case c == ' ' || c == '\n' || c == '\t':
+			if d == 0 && start >= 0 {
+				out = append(out, s[start:i])
+				start = -1
+			}
+		default:
+			if d == 0 && start < 0 {
+				start = i
+			}
+		}
+	}
+	if start >= 0 {
+		out = append(out, s[start:])
+	}
+	return out
+}
+
+var verRe = regexp.MustCompile(`\$[0-9]+$`)
+
+// family maps a symbol to its version-free array family ("" for symbols that do not link hypotheses).
+func family(sym string) string {
+	f := verRe.ReplaceAllString(sym, "")
+	for _, p := range []string{"m.old.", "m.", "H."} {
+		if strings.HasPrefix(f, p) {
+			f = f[len(p):]
+			break
+		}
+	}
+	if !strings.Contains(f, ".") || strings.Contains(f, "$alloc") || f == "g.now" || strings.HasPrefix(f, "ref.") || strings.HasPrefix(f, "res.") {
+		return ""
+	}
+	return f
 }
